@@ -277,6 +277,7 @@ partial def parseTT : SExp → Option TraitType
   | .list (.atom "Map" :: ps) => (parsePairs ps).map fun (k, v) => .map k v
   | .list (.atom "Tuple" :: ts) => (ts.mapM parseTT).map .tuple
   | .list (.atom "BaseTuple" :: ts) => (ts.mapM parseTT).map .baseTuple
+  | .list (.atom "ValidatedTuple" :: fv :: ts) => do pure (.validatedTuple (← ts.mapM parseTT) (← parseOptNat fv))
   | .list [.atom "Instance", ty, an, .atom mode, d] => do
     pure (.instance (← parseTy ty) (← sexpBool an) (← mode.toNat?) (← parseVal d))
   | .list [.atom "Type", ty, an] => do pure (.type_ (← parseTy ty) (← sexpBool an))
@@ -320,6 +321,22 @@ def fnTable (f : Nat) (v : Val) : Except Exc Val :=
     | .atom (.str _ _) => .ok Val.none
     | _ => .error .traitError
   | _ => .error .runtimeError
+
+/-- `a < b` on exact ints / floats (exact comparison, as CPython); TypeError otherwise. -/
+def numLt (a b : Val) : Except Exc Bool :=
+  match a, b with
+  | .atom (.int false m), .atom (.int false n) => .ok (decide (m < n))
+  | .atom (.int false m), .atom (.float false f) => .ok (F.lt (.fin (4 * m)) f)
+  | .atom (.float false f), .atom (.int false n) => .ok (F.lt f (.fin (4 * n)))
+  | .atom (.float false f), .atom (.float false g) => .ok (F.lt f g)
+  | _, _ => .error .typeError
+
+/-- The `fvalidate` predicates of the harness (twin: vallib.PREDS). -/
+def predTable (f : Nat) (w : Val) : Except Exc Bool :=
+  match f, w with
+  | 0, .tuple _ (a :: b :: _) => numLt a b                 -- lambda x: x[0] < x[1]
+  | 0, _ => .error .indexError
+  | _, _ => .ok true
 
 /-- `adapt(value, cls, None)` in the harness world: the value itself when it
 already is an instance, an adapter (class 9) when its class registered one. -/
@@ -365,6 +382,7 @@ def mkEnv (r : RawEnv) : Env :=
       | some (_, _, res) => res
       | none => .error .other
     fn := fnTable
+    pred := predTable
     adapt := adaptFn
     selfCls := r.selfCls
     asarray := fun v dt =>
